@@ -28,4 +28,6 @@ def run(env: Env) -> Outcome:
                 "non-trivial = more than 2 ticks; distinct by (spec, schedule)")
     suite.direct_corr(env, out, env.budget(3000, 60000))
     suite.live_runs(env, out, env.budget(400, 8000), [monitors.mon_c02], extra_specs=suite.load_corpus("C02"))
+    # waits: responses that are duplicates / non-matching / early / late; request-reply waits that differ only in the requirement value
+    suite.live_runs(env, out, env.budget(250, 5000), [monitors.mon_c02], gen_kwargs={"family": "wait"})
     return out
